@@ -250,11 +250,248 @@ func RunC17(tier string) int {
 			rep.Sample(desc + " => bundle versions " + got)
 		}
 	})
-	rep.States = len(jobs)
+	twinBuilds := c17Twins(rep, thorough)
+	rep.States = len(jobs) + twinBuilds
 	rep.Transitions = rep.Evaluations
+	rep.Extra["twin_builds"] = twinBuilds
 	rep.Extra["offered_lists"] = len(lists)
 	rep.Extra["histories"] = len(hists)
 	rep.Rule = fmt.Sprintf("every ordered list of <=%d versions from {0.9.0,1.0.0,1.1.0-beta,1.1.0,2.0.0-rc1,2.0.0} offered by the registry (each distinct order is a distinct registry answer), optionally one deprecated, × histories of 1-2 Add calls on the same package (registry with 12 allowed sets incl. pessimistic, range, exact, disjoint selection, unsatisfiable; already-versioned final sources; with sub-path); oracle: brute-force maximum over offered∧Has; error and no bundle when empty; recorded source address and deprecation are those of the selected version; one versions request per package. Distinct = (offered list, selected set).", maxOffered)
-	rep.Assumptions = []string{"no two offered versions are equal in precedence", "Set.Has and Version.LessThan of go-versions are trusted"}
+	rep.Rule += " Twin part: listings of 2-3 versions from {0.9.0, 1.0.0, 1.0.0+a, 1.0.0+b, 1.1.0} holding at least two of equal precedence (they differ in build metadata only), any one deprecated; requests all / only:1.0.0 / ~> 1.0 / already-versioned @1.0.0, @1.0.0+a, @1.0.0+b (pairs of them in the thorough tier); any of the equal-precedence maxima may be selected, but the source address and the deprecation note recorded for the selected version string must be the ones the registry attached to exactly that string."
+	rep.Assumptions = []string{"among offered versions of equal precedence (build metadata twins) any one may be selected; an already-versioned source may resolve to a twin of the version it names", "Set.Has and Version.LessThan of go-versions are trusted"}
 	return rep.Finish()
+}
+
+
+// c17Twins: listings that hold versions of equal precedence (differing in build
+// metadata only). Which twin is selected is left open; what is recorded for the
+// selected one must be what the registry attached to exactly that version string.
+func c17Twins(rep *core.Report, thorough bool) int {
+	uni := []string{"0.9.0", "1.0.0", "1.0.0+a", "1.0.0+b", "1.1.0"}
+	src := func(i int) string { return fmt.Sprintf("https://example.com/t%d.tgz", i) }
+	isTwin := func(i int) bool { return strings.HasPrefix(uni[i], "1.0.0") }
+	var lists [][]int
+	var rec func(cur []int)
+	rec = func(cur []int) {
+		tw := 0
+		for _, c := range cur {
+			if isTwin(c) {
+				tw++
+			}
+		}
+		if tw >= 2 {
+			lists = append(lists, append([]int{}, cur...))
+		}
+		if len(cur) == 3 {
+			return
+		}
+		for i := range uni {
+			used := false
+			for _, c := range cur {
+				if c == i {
+					used = true
+				}
+			}
+			if !used {
+				rec(append(cur, i))
+			}
+		}
+	}
+	rec(nil)
+	singles := []AddCall{
+		{Kind: "registry", Addr: c17Pkg, Allowed: "all", Finder: "F1"},
+		{Kind: "registry", Addr: c17Pkg, Allowed: "only:1.0.0", Finder: "F1"},
+		{Kind: "registry", Addr: c17Pkg, Allowed: "ruby:~> 1.0", Finder: "F1"},
+		{Kind: "registry", Addr: c17Pkg, Allowed: "ruby:< 1.1.0", Finder: "F1"},
+		{Kind: "final", Addr: c17Pkg + "@1.0.0", Finder: "F1"},
+		{Kind: "final", Addr: c17Pkg + "@1.0.0+a", Finder: "F1"},
+		{Kind: "final", Addr: c17Pkg + "@1.0.0+b", Finder: "F1"},
+	}
+	var hists [][]AddCall
+	for _, a := range singles {
+		hists = append(hists, []AddCall{a})
+	}
+	if thorough {
+		for _, a := range singles {
+			for _, b := range singles {
+				hists = append(hists, []AddCall{a, b})
+			}
+		}
+	} else {
+		hists = append(hists, []AddCall{singles[5], singles[6]}, []AddCall{singles[0], singles[3]})
+	}
+	type job struct {
+		list []int
+		dep  int
+		hist []AddCall
+	}
+	var jobs []job
+	for _, l := range lists {
+		for d := -1; d < len(l); d++ {
+			for _, h := range hists {
+				jobs = append(jobs, job{l, d, h})
+			}
+		}
+	}
+	mkWorld := func(j job) World {
+		w := World{}
+		for i := range uni {
+			w.Pkgs = append(w.Pkgs, WPkg{Addr: src(i), Locs: []string{"", "m"}, NilMeta: true})
+		}
+		g := WReg{Pkg: c17Pkg}
+		for k, vi := range j.list {
+			v := WVer{V: uni[vi], Source: src(vi)}
+			if k == j.dep {
+				v.Deprecated, v.Reason, v.Link = true, "deprecated "+uni[vi], "https://example.com/d/"+uni[vi]
+			}
+			g.Versions = append(g.Versions, v)
+		}
+		w.Regs = []WReg{g}
+		return w
+	}
+	fmt.Printf("  twin part: offered lists=%d histories=%d builds=%d\n", len(lists), len(hists), len(jobs))
+	pool := core.NewPool(0)
+	args := make([]BuildArg, len(jobs))
+	pool.Map("build", len(jobs), func(i int) any {
+		args[i] = BuildArg{World: mkWorld(jobs[i]), Adds: jobs[i].hist, Trace: true}
+		return args[i]
+	}, func(i int, r core.Result) {
+		rep.Evaluations++
+		j := jobs[i]
+		w := args[i].World
+		var offered []string
+		for k, v := range w.Regs[0].Versions {
+			s := v.V
+			if k == j.dep {
+				s += "(deprecated)"
+			}
+			offered = append(offered, s)
+		}
+		var hs []string
+		for _, a := range j.hist {
+			hs = append(hs, a.String())
+		}
+		desc := fmt.Sprintf("registry offers [%s]; history [%s]", strings.Join(offered, ", "), strings.Join(hs, " ; "))
+		if r.Hung || r.Crashed {
+			rep.Violation("sourcebundle.Builder/hang-or-crash", desc, "build", args[i])
+			return
+		}
+		var out BuildOut
+		core.MustOut(r, &out)
+		bad := func(sig, f string, a ...any) {
+			rep.Violation("sourcebundle.Builder/"+sig, desc+" :: "+fmt.Sprintf(f, a...), "build", args[i])
+		}
+		// candidates of every Add: the offered∧allowed versions of maximal precedence
+		var cands []map[string]bool
+		firstErr := -1
+		for k, a := range j.hist {
+			var set versions.Set
+			if a.Kind == "final" {
+				set = versions.Only(versions.MustParseVersion(strings.TrimPrefix(a.Addr, c17Pkg+"@")))
+			} else {
+				set = ParseAllowed(a.Allowed)
+			}
+			best, ok := SelectVersion(w.Regs[0].Versions, set)
+			if !ok {
+				firstErr = k
+				break
+			}
+			bv := versions.MustParseVersion(best.V)
+			c := map[string]bool{}
+			for _, o := range w.Regs[0].Versions {
+				ov := versions.MustParseVersion(o.V)
+				if set.Has(ov) && ov.Same(bv) {
+					c[ov.String()] = true
+				}
+			}
+			cands = append(cands, c)
+		}
+		if firstErr >= 0 {
+			rep.Outcome("twins/no-allowed-version")
+			if len(out.Adds) <= firstErr || !out.Adds[firstErr].HasErrors {
+				bad("no-allowed-version-not-reported", "Add #%d has no offered∧allowed version but reported no error", firstErr)
+			}
+			if out.Bundle != nil {
+				bad("bundle-after-error", "a bundle came out of a build with an unresolvable registry source")
+			}
+			return
+		}
+		for k, a := range out.Adds {
+			if a.HasErrors || a.Panic != "" {
+				bad("spurious-error", "Add #%d reported an error although a version is allowed: %v %s", k, a.Diags, a.Panic)
+				return
+			}
+		}
+		if out.Bundle == nil {
+			bad("no-bundle", "no bundle: %s %s", out.CloseErr, out.ClosePanic)
+			return
+		}
+		rep.Outcome("twins/resolved-and-judged")
+		var got []string
+		if g := out.Bundle.RegVers[c17Pkg]; g != "" {
+			got = strings.Split(g, ",")
+		}
+		rep.Nontrivial("twins:" + strings.Join(offered, ",") + "=>" + strings.Join(got, ","))
+		if len(got) == 0 || len(got) > len(j.hist) {
+			bad("wrong-version-selected", "bundle holds versions %v for %d requests", got, len(j.hist))
+			return
+		}
+		for _, g := range got {
+			in := false
+			for _, c := range cands {
+				if c[g] {
+					in = true
+				}
+			}
+			if !in {
+				bad("wrong-version-selected", "bundle holds version %s, which is not a maximum of offered∧allowed for any request (candidates %v)", g, cands)
+			}
+		}
+		for k, c := range cands {
+			hit := false
+			for _, g := range got {
+				if c[g] {
+					hit = true
+				}
+			}
+			if !hit {
+				bad("wrong-version-selected", "request #%d: none of its maxima %v is in the bundle (%v)", k, c, got)
+			}
+		}
+		counts := map[string]int{}
+		for _, c := range out.Calls {
+			counts[c]++
+		}
+		for _, g := range got {
+			var ent *WVer
+			for k := range w.Regs[0].Versions {
+				if w.Regs[0].Versions[k].V == g {
+					ent = &w.Regs[0].Versions[k]
+				}
+			}
+			if ent == nil {
+				continue // reported above
+			}
+			if s := out.Bundle.RegSrc[c17Pkg+"@"+g]; s != ent.Source {
+				bad("wrong-source-addr", "version %s: bundle records %q, registry said %q", g, s, ent.Source)
+			}
+			wantDep := ""
+			if ent.Deprecated {
+				wantDep = g + "|" + ent.Reason + "|" + ent.Link
+			}
+			if d := out.Bundle.RegDep[c17Pkg+"@"+g]; d != wantDep {
+				bad("wrong-deprecation/equal-precedence-versions", "version %s: bundle records deprecation %q, registry attached %q to that version", g, d, wantDep)
+			}
+			if n := counts["sourceaddr "+c17Pkg+"@"+g]; n != 1 {
+				bad("source-addr-request-count", "source address of %s requested %d times", g, n)
+			}
+		}
+		if counts["versions "+c17Pkg] != 1 {
+			bad("versions-requested-more-than-once", "version list requested %d times", counts["versions "+c17Pkg])
+		}
+		if i%503 == 0 {
+			rep.Sample(desc + " => bundle versions " + strings.Join(got, ","))
+		}
+	})
+	return len(jobs)
 }
